@@ -95,6 +95,14 @@ class LinesTheory:
         it._match_idx = {}
         it._keep = []   # z3 ids are unique among live ASTs only: keep every recorded AST alive
 
+    def snapshot(self, it):
+        return (set(it._lines_done), set(it._seen_ast),
+                {k: list(v) for k, v in it._nlt_terms.items()},
+                {k: list(v) for k, v in it._match_idx.items()})
+
+    def restore(self, it, snap):
+        it._lines_done, it._seen_ast, it._nlt_terms, it._match_idx = snap
+
     def saturate(self, it, formulas):
         work = []
         for f in formulas:
@@ -155,7 +163,7 @@ class LinesTheory:
                                           MSTART(A, n, k) < MSTART(A, n, j)))
                 lst.append(k)
             for f in new:
-                it.S.add(f)
+                it.sadd(f)
                 if depth < self.DEPTH:
                     self.collect(it, f, work, depth + 1)
 
@@ -263,7 +271,7 @@ def install(w):
             m.match = (A, n, i)
             return m
         v.seq = Seq(length=NLT(A, n), item=item)
-        it.S.add(NLT(A, n) >= 0)
+        it.sadd(NLT(A, n) >= 0)
         return v
     w.builtins["Pattern.finditer"] = p_finditer
 
@@ -295,7 +303,7 @@ def install(w):
         from pyvc.interp import ListObj
         from pyvc import codec
         it.st.lists[oid] = ListObj(1 + c, None, "str", codec.fresh_arrays(it, "str", "lines"))
-        it.S.add(c >= 0)
+        it.sadd(c >= 0)
         from pyvc.sym import VList
         return VList(oid)
     w.builtins["Pattern.split"] = p_split
@@ -314,7 +322,7 @@ def install(w):
             "starts with LF (then one less)")
         la = a.length()
         straddle = z3.And(la > 0, b.length() > 0, a.char(la - 1) == CR, b.char(0) == LF)
-        it.S.add(NLT(r.arr, r.hi) == ca + cb - z3.If(straddle, 1, 0))
+        it.sadd(NLT(r.arr, r.hi) == ca + cb - z3.If(straddle, 1, 0))
         return r
     w.str_concat = lambda it, a, b: str_concat(it, a, b)
 
@@ -328,11 +336,11 @@ def install(w):
                 c = count_lt(it, f.recv)
                 w.trusted_used.add("s.rjust(w) pads with spaces: the number of line terminators "
                                    "is that of s")
-                it.S.add(NLT(r.arr, r.hi) == c)
+                it.sadd(NLT(r.arr, r.hi) == c)
                 n0 = f.recv.length()
                 # padding characters are the fill character (space by default)
-                it.S.add(z3.Implies(r.hi > n0, z3.Select(r.arr, 0) == 32))
-                it.S.add(z3.Implies(z3.And(r.hi > n0, n0 == 0), z3.Select(r.arr, r.hi - 1) == 32))
+                it.sadd(z3.Implies(r.hi > n0, z3.Select(r.arr, 0) == 32))
+                it.sadd(z3.Implies(z3.And(r.hi > n0, n0 == 0), z3.Select(r.arr, r.hi - 1) == 32))
             except Unsupported:
                 pass
         return r
